@@ -31,6 +31,27 @@ def _none_test(test, var):
     return _is_none_test(test, var)
 
 
+def _main_fn(ctx, R):
+    """main() with the error counter — the local initialised with a number and returned — called `errors`, the parsed
+    arguments `args` and the argument parser `argp`"""
+    from ..pyutil import renamed_copy
+    if "c26_main" not in ctx.cache:
+        fn = ctx.func(CLI, "main", R)
+        roles = {}
+        rets = [st.value.id for st in ast.walk(fn) if isinstance(st, ast.Return) and isinstance(st.value, ast.Name)]
+        for st in fn.body:
+            if isinstance(st, ast.Assign) and isinstance(st.targets[0], ast.Name):
+                t, v = st.targets[0].id, st.value
+                if isinstance(v, ast.Constant) and isinstance(v.value, int) and not isinstance(v.value, bool) and t in rets:
+                    roles[t] = "errors"
+                elif isinstance(v, ast.Call) and (call_name(v) or "").endswith("ArgumentParser"):
+                    roles[t] = "argp"
+                elif isinstance(v, ast.Call) and (call_name(v) or "").endswith(".parse_args"):
+                    roles[t] = "args"
+        ctx.cache["c26_main"] = renamed_copy(fn, {k: v for k, v in roles.items() if k != v})
+    return ctx.cache["c26_main"]
+
+
 def _is_inc(node) -> bool:
     a = node.ast
     return node.kind == "stmt" and isinstance(a, ast.AugAssign) and is_name(a.target, "errors") and isinstance(a.op, ast.Add)
@@ -50,7 +71,7 @@ def _is_log_error(node) -> bool:
 )
 def r26_1(ctx, rep):
     R = "R26.1"
-    fn = ctx.func(CLI, "main", R)
+    fn = _main_fn(ctx, R)
     cfg = CFG(fn, R)
     incs = {x.id for x in cfg.nodes if _is_inc(x)}
     logs = [x for x in cfg.nodes if _is_log_error(x)]
@@ -107,30 +128,45 @@ def r26_1(ctx, rep):
     pf = ctx.func(CLI, "parse_file", R)
     c2 = CFG(pf, R)
     bad = None
+    # the local that holds the parse result (bound from <...>.parse(...)): returning it after a logged syntax error returns None
+    results = {st.targets[0].id for st in ast.walk(pf) if isinstance(st, ast.Assign) and isinstance(st.targets[0], ast.Name)
+               and isinstance(st.value, ast.Call) and (call_name(st.value) or "").endswith(".parse")}
     for x in c2.nodes:
         if _is_log_error(x):
             for r in c2.stmts():
                 if isinstance(r.ast, ast.Return) and r.id in c2.reachable(x.id):
                     v = r.ast.value
-                    falsy = v is None or (isinstance(v, ast.Constant) and not v.value) or is_name(v, "ast")
+                    falsy = v is None or (isinstance(v, ast.Constant) and not v.value) or (isinstance(v, ast.Name) and v.id in results)
                     if not falsy:
                         bad = norm(r.ast)
-    # `return ast` after logging a syntax error returns the None parse result: accept only if ast was tested `is None`
     rep.ob(R, CLI + ":parse_file", "failure returns None", bad is None, "after logging a parse error parse_file must return None (found %s)" % bad)
     pa = ctx.func(CLI, "parse_all", R)
     ok = False
+    # parse_all: <r> = parse_file(path); if <r>: <tree>.extend(<r>) else: <failed>.append(path); return <files>, <failed>
+    res = {st.targets[0].id for st in ast.walk(pa) if isinstance(st, ast.Assign) and isinstance(st.targets[0], ast.Name)
+           and isinstance(st.value, ast.Call) and is_name(st.value.func, "parse_file")}
+    failed = None
+    for r in ast.walk(pa):
+        if isinstance(r, ast.Return) and isinstance(r.value, ast.Tuple) and len(r.value.elts) == 2 and isinstance(r.value.elts[1], ast.Name):
+            failed = r.value.elts[1].id
     for n in walk_local(pa):
-        if isinstance(n, ast.If) and is_name(n.test, "file_ast"):
-            ok = any("error_files.append(" in norm(s) for s in n.orelse) and any(".extend(file_ast)" in norm(s) for s in n.body)
-    rep.ob(R, CLI + ":parse_all", "failed files collected", ok, "a file that failed to parse must be appended to error_files")
-    ok = any(isinstance(x.ast, ast.AugAssign) and is_name(x.ast.target, "errors") and norm(x.ast.value) == "len(error_files)" for x in cfg.stmts())
-    rep.ob(R, CLI + ":main", "parse errors counted", ok, "errors += len(error_files)")
+        if isinstance(n, ast.If) and isinstance(n.test, ast.Name) and n.test.id in res and failed:
+            ok = any(("%s.append(" % failed) in norm(s) for s in n.orelse) and any((".extend(%s)" % n.test.id) in norm(s) for s in n.body)
+    rep.ob(R, CLI + ":parse_all", "failed files collected", ok, "a file that failed to parse must be appended to the list of failed files that parse_all returns")
+    # main: <files>, <failed> = parse_all(...); errors += len(<failed>)
+    got = None
+    for st in ast.walk(fn):
+        if isinstance(st, ast.Assign) and isinstance(st.value, ast.Call) and is_name(st.value.func, "parse_all") and isinstance(st.targets[0], ast.Tuple) \
+                and len(st.targets[0].elts) == 2 and isinstance(st.targets[0].elts[1], ast.Name):
+            got = st.targets[0].elts[1].id
+    ok = got is not None and any(isinstance(x.ast, ast.AugAssign) and is_name(x.ast.target, "errors") and norm(x.ast.value) == "len(%s)" % got for x in cfg.stmts())
+    rep.ob(R, CLI + ":main", "parse errors counted", ok, "errors += len(<files that failed to parse>)")
 
 
 @SPEC.rule("R26.2", "no dropped result: a call to translate() (which reports failure by returning False) is never an expression statement")
 def r26_2(ctx, rep):
     R = "R26.2"
-    fn = ctx.func(CLI, "main", R)
+    fn = _main_fn(ctx, R)
     tr = ctx.func(CLI, "translate", R)
     returns_flag = any(isinstance(r, ast.Return) and isinstance(r.value, ast.Constant) and r.value.value is False for r in walk_local(tr))
     if not returns_flag:
@@ -172,7 +208,7 @@ def r26_2(ctx, rep):
 )
 def r26_3(ctx, rep):
     R = "R26.3"
-    fn = ctx.func(CLI, "main", R)
+    fn = _main_fn(ctx, R)
     tr = ctx.func(CLI, "translate", R)
     # does translate convert every Exception?
     tr_total = False
@@ -226,7 +262,7 @@ def r26_4(ctx, rep):
                     a = s.value.args[0]
                     ok = (var is not None and is_name(a, var)) or (isinstance(a, ast.Call) and call_name(a) == "main")
     rep.ob(R, CLI + ":__main__", "sys.exit(main(...))", ok, "the exit status must be the error count returned by main()")
-    fn = ctx.func(CLI, "main", R)
+    fn = _main_fn(ctx, R)
     errs = [c for c in calls(fn) if call_name(c) == "argp.error"]
     rep.ob(R, CLI + ":main", "invalid option combination -> argp.error", len(errs) >= 1, "an invalid combination of arguments must go through argparse's error() (usage message, exit code 2)")
 
@@ -239,7 +275,7 @@ def r26_4(ctx, rep):
 )
 def r26_5(ctx, rep):
     R = "R26.5"
-    fn = ctx.func(CLI, "main", R)
+    fn = _main_fn(ctx, R)
     cfg = CFG(fn, R)
     n = 0
     for lp in ast.walk(fn):
